@@ -34,7 +34,8 @@ DROPPED_CITES = [None, [1]]
 def bounds(tier):
     return dict(k=[1, 2], vector_refs=V_REFS, module_refs=M_REFS, kept_feature_cites=KEPT_CITES, second_kept_feature=KEPT2_CITES,
                 dropped_feature_cites=DROPPED_CITES, repeated_calls=2 if tier == "quick" else 3,
-                rotations=[0] if tier == "quick" else [0, "wrapping"], record_ids=["distinct", "one shared identifier", "none (library default)"])
+                rotations=[0] if tier == "quick" else [0, "wrapping"], record_ids=["distinct", "one shared identifier", "none (library default)"],
+                record_shapes="k=2, both kept features cited, nothing dropped: plain-string / tuple qualifier values on the cited features; fully annotated records; each at both rotations")
 
 
 def goals(tier):
